@@ -188,7 +188,8 @@ Fixpoint import (d : dtype) (j : val) {struct d} : option val :=
       end
   end.
 
-(* datatype.export_value(v) on an internal value: None = raises (check_type of array/tuple/struct) *)
+(* datatype.export_value(v) on an internal value: None = raises (check_type of array/tuple/struct; since 45926fd a
+   struct may lack optional members, as validate admits) *)
 Fixpoint export (d : dtype) (v : val) {struct d} : option val :=
   match d with
   | DInt _ _ => match v with VInt z => Some (VInt z) | _ => None end
@@ -222,7 +223,7 @@ Fixpoint export (d : dtype) (v : val) {struct d} : option val :=
       match v with
       | VMap kvs =>
           if existsb (fun kv => negb (mem_str (fst kv) (map fst ms))) kvs then None
-          else if existsb (fun m => negb (mem_str (fst m) (map fst kvs))) ms then None
+          else if existsb (fun m => negb (mem_str (fst m) (map fst kvs)) && negb (mem_str (fst m) opt)) ms then None
           else option_map VMap
             ((fix go (kvs : list (str * val)) : option (list (str * val)) :=
                 match kvs with
